@@ -54,7 +54,8 @@ theorem mem_newBoxes (s : Store) (ns : List Bytes) (now : Nat) (m : Bytes) :
 def createdName (arg : Bytes) : Bytes := trimSuffix (trimQuotes arg) slash
 
 theorem create_ok_iff (s : Store) (arg : Bytes) (now : Nat) :
-    (s.create arg now).2 = .ok ↔ createdName arg ≠ [] ∧ toUpper (createdName arg) ≠ inboxName ∧ createdName arg ∉ s.names := by
+    (s.create arg now).2 = .ok ↔ createdName arg ≠ [] ∧ toUpper (createdName arg) ≠ inboxName ∧
+      underRoles (createdName arg) = false ∧ createdName arg ∉ s.names := by
   unfold Store.create createdName
   simp only []
   split
@@ -62,10 +63,12 @@ theorem create_ok_iff (s : Store) (arg : Bytes) (now : Nat) :
   · split
     · rename_i h1 h2; simp [h2]
     · split
-      · rename_i h1 h2 h3; simp [(has_iff_names _ _).mp h3]
-      · rename_i h1 h2 h3
-        have : ¬ (trimSuffix (trimQuotes arg) slash ∈ s.names) := fun h => h3 ((has_iff_names _ _).mpr h)
-        simp [h1, h2, this]
+      · rename_i h1 h2 h3; simp [h3]
+      · split
+        · rename_i h1 h2 h3 h4; simp [(has_iff_names _ _).mp h4]
+        · rename_i h1 h2 h3 h4
+          have : ¬ (trimSuffix (trimQuotes arg) slash ∈ s.names) := fun h => h4 ((has_iff_names _ _).mpr h)
+          simp [h1, h2, h3, this]
 
 theorem create_names (s : Store) (arg : Bytes) (now : Nat) (hok : (s.create arg now).2 = .ok) (m : Bytes) :
     m ∈ (s.create arg now).1.names ↔
@@ -74,9 +77,9 @@ theorem create_names (s : Store) (arg : Bytes) (now : Nat) (hok : (s.create arg 
   unfold Store.create at *
   unfold createdName at *
   simp only [] at *
-  have h3 : ¬ (s.has (trimSuffix (trimQuotes arg) slash) = true) := fun hh => h.2.2 ((has_iff_names _ _).mp hh)
+  have h3 : ¬ (s.has (trimSuffix (trimQuotes arg) slash) = true) := fun hh => h.2.2.2 ((has_iff_names _ _).mp hh)
   have h3' : s.has (trimSuffix (trimQuotes arg) slash) = false := by simpa using h3
-  simp only [h.1, h.2.1, h3', if_false, Bool.false_eq_true]
+  simp only [h.1, h.2.1, h.2.2.1, h3', if_false, Bool.false_eq_true]
   rw [mem_newBox, mem_newBoxes]
   constructor
   · rintro ((h1 | h1) | ⟨rfl, _⟩)
@@ -97,7 +100,15 @@ theorem create_refused (s : Store) (arg : Bytes) (now : Nat) (h : (s.create arg 
     · rfl
     · split
       · rfl
-      · rename_i h1 h2 h3; simp [h1, h2, h3] at h
+      · split
+        · rfl
+        · rename_i h1 h2 h3 h4; simp [h1, h2, h3, h4] at h
+
+/-- RENAME to a name in the part of the hierarchy reserved for role mailboxes is refused and changes nothing -/
+theorem rename_refuses_roles (s : Store) (oa na : Bytes) (now : Nat) (hne : ¬ (trimQuotes oa = [] ∨ trimQuotes na = []))
+    (hr : underRoles (trimSuffix (trimQuotes na) slash) = true) : s.rename oa na now = (s, .no) := by
+  unfold Store.rename
+  simp only [hne, hr, if_false, if_true]
 
 theorem delete_names (s : Store) (arg : Bytes) :
     ((s.delete arg).2 = .ok → (s.delete arg).1.names = s.names.filter (· ≠ trimQuotes arg)) ∧
@@ -186,18 +197,20 @@ theorem rename_boxes (s : Store) (oa na : Bytes) (now : Nat)
   · simp at hok
   · split at hok
     · simp at hok
-    · rename_i h1 h2
-      simp only [h1, h2, hinb, if_false] at hok ⊢
-      split at hok
+    · split at hok
       · simp at hok
-      · split at hok
+      · rename_i h1 h2 h3
+        simp only [h1, h2, h3, hinb, if_false] at hok ⊢
+        split at hok
         · simp at hok
-        · rename_i h3 h4
-          simp only [h3, h4, if_false] at hok ⊢
-          split at hok
-          · rename_i hnd
-            simp [hnd]
+        · split at hok
           · simp at hok
+          · rename_i h4 h5
+            simp only [h4, h5, if_false] at hok ⊢
+            split at hok
+            · rename_i hnd
+              simp [hnd]
+            · simp at hok
 
 theorem rename_refused (s : Store) (oa na : Bytes) (now : Nat) (h : (s.rename oa na now).2 = .bad) : (s.rename oa na now).1 = s := by
   unfold Store.rename at *
@@ -210,14 +223,16 @@ theorem rename_refused (s : Store) (oa na : Bytes) (now : Nat) (h : (s.rename oa
     split at h
     · simp at h
     · split at h
+      · simp at h
       · split at h
-        · simp at h
-        · split at h <;> simp at h
-      · split at h
-        · simp at h
         · split at h
           · simp at h
           · split at h <;> simp at h
+        · split at h
+          · simp at h
+          · split at h
+            · simp at h
+            · split at h <;> simp at h
 
 /-- the subscription list is touched by SUBSCRIBE and UNSUBSCRIBE only -/
 theorem subs_modify (s : Store) (n : Bytes) (f : Mbox → Mbox) : (s.modify n f).subs = s.subs := rfl
@@ -311,7 +326,9 @@ theorem subs_step (s : Store) (op : Op) (h : op.isSubOp = false) : (step s op).s
       · rfl
       · split
         · rfl
-        · simp only [subs_newBox, subs_newBoxes]
+        · split
+          · rfl
+          · simp only [subs_newBox, subs_newBoxes]
   | delete a =>
     simp only [step, Store.delete]
     split
@@ -330,16 +347,18 @@ theorem subs_step (s : Store) (op : Op) (h : op.isSubOp = false) : (step s op).s
     · split
       · rfl
       · split
+        · rfl
         · split
-          · rfl
-          · split <;> rfl
-        · split
-          · rfl
+          · split
+            · rfl
+            · split <;> rfl
           · split
             · rfl
             · split
-              · simp only [subs_newBoxes]
-              · simp only [subs_newBoxes]
+              · rfl
+              · split
+                · simp only [subs_newBoxes]
+                · simp only [subs_newBoxes]
   | subscribe a => simp [Op.isSubOp] at h
   | unsubscribe a => simp [Op.isSubOp] at h
 
